@@ -37,6 +37,8 @@ type modeMonitor struct {
 	max     int
 	judged  int
 	seen    int
+	pidBuf  map[uint64]uintptr // printer -> its buffer object
+	prevP   func(rfmt.VerifPoolEvent)
 	prevM   func(rfmt.VerifModeEvent)
 	prevB   func(buffer.VerifEvent)
 	rep     *lib.Report
@@ -44,10 +46,11 @@ type modeMonitor struct {
 }
 
 func installModeMonitor(rep *lib.Report, record int) *modeMonitor {
-	m := &modeMonitor{ov: map[uintptr]int{}, inh: map[uintptr]int{}, max: record, rep: rep, prevM: rfmt.VerifModeSink, prevB: buffer.VerifSink}
+	m := &modeMonitor{ov: map[uintptr]int{}, inh: map[uintptr]int{}, pidBuf: map[uint64]uintptr{}, prevP: rfmt.VerifPoolSink, max: record, rep: rep, prevM: rfmt.VerifModeSink, prevB: buffer.VerifSink}
 	rfmt.VerifModeSink = func(ev rfmt.VerifModeEvent) {
 		m.mu.Lock()
 		m.ov[ev.Buf] = ev.O1
+		m.pidBuf[ev.Pid] = ev.Buf
 		switch ev.Ev {
 		case "G":
 			delete(m.inh, ev.Buf)
@@ -64,6 +67,22 @@ func installModeMonitor(rep *lib.Report, record int) *modeMonitor {
 		m.mu.Unlock()
 		if m.prevM != nil {
 			m.prevM(ev)
+		}
+	}
+	rfmt.VerifPoolSink = func(ev rfmt.VerifPoolEvent) {
+		if m.prevP != nil {
+			m.prevP(ev)
+		}
+		if ev.Ev == "put" || ev.Ev == "drop" {
+			// the printer leaves use: once pooled it may be collected and its memory handed to any other object
+			// (a StringBuilder's buffer, say), which must not inherit what is known about the printer
+			m.mu.Lock()
+			if b, ok := m.pidBuf[ev.Pid]; ok {
+				delete(m.ov, b)
+				delete(m.inh, b)
+				delete(m.pidBuf, ev.Pid)
+			}
+			m.mu.Unlock()
 		}
 	}
 	buffer.VerifSink = func(ev buffer.VerifEvent) {
@@ -99,7 +118,7 @@ func installModeMonitor(rep *lib.Report, record int) *modeMonitor {
 // stop uninstalls the sinks and writes the recorded mode events (longest gap-free prefix, small integers for
 // printer identities) to path; returns the number of events written.
 func (m *modeMonitor) stop(path string) int {
-	rfmt.VerifModeSink, buffer.VerifSink = m.prevM, m.prevB
+	rfmt.VerifModeSink, buffer.VerifSink, rfmt.VerifPoolSink = m.prevM, m.prevB, m.prevP
 	m.mu.Lock()
 	defer m.mu.Unlock()
 	m.rep.Count("writes_judged_by_mode_monitor", m.judged)
